@@ -39,7 +39,7 @@ def run(spec):
     notes = []
 
     # 1. proof obligations -------------------------------------------------------------
-    ok_build, build_log = lean_build()
+    ok_build, build_log = lean_build(prop)
     audit = {'obligations': 0, 'discharged': 0, 'problems': ['lake build failed'], 'theorems': [],
              'checker_cmd': f'cd {LEAN} && lake build'}
     if ok_build:
